@@ -166,7 +166,7 @@ static int submitting_q = -1;
 
 static void *vp_malloc(size_t n)
 {
-	void *p = malloc(n);
+	void *p = mt_malloc_filled(n);	/* filled with the scenario's byte pattern: see mt_h.c */
 	if (nrec == MAXREC)
 		mt_finish("HARNESS-ERROR records");
 	RC[nrec].ptr = p;
